@@ -4,12 +4,12 @@
 """
 
 import itertools
-import math
 import random
 
 from cnfgen.formula.cnf import CNF
 from cnfgen.localtypes import non_negative_int
 from cnfgen.families.randomformulas import sample_variables
+from cnfgen.families.randomformulas import more_than_available
 
 def parity_satisfied(X, b, assignments):
     """Test whether a clause is satisfied by all assignments
@@ -42,7 +42,7 @@ If after enough samples we haven't got enough parities we use dense
 sampling, namely we generare all possible parities and pick at random
 m of them. This approach always succeeds, but is quite slower and
 wasteful for just few samples."""
-    if m > math.comb(n, k) * 2:
+    if more_than_available(m, n, k, 2):
         # (before the sparse sampling, which would try 10*m times)
         raise ValueError("Too many parities requested")
     # Sparse sampling
